@@ -293,7 +293,15 @@ def run(E: Engine, rep: Report, tier: str) -> dict:
         kw = dict(l.value[3])
         tol_ok = tol_ok or ("atol" in kw and _is(kw["atol"], "10 ** (-COORD_PRECISION)") is not None)
     rep.check(tol_ok, "TABLE", "WeightMap.get_qubit_weight_map|tolerance-uses-COORD_PRECISION", "position matching tolerance derives from COORD_PRECISION", "qubit/trap matching no longer uses the COORD_PRECISION tolerance", E.where(gq))
-    rep.floor("TABLE", 4)
+    # ... and it is an ABSOLUTE tolerance: numpy's default rtol=1e-5 adds 1e-5*|coordinate| to the matching radius (1 nm
+    # at 100 um), inside which the weights of all matched traps are summed
+    abs_only = False
+    for l in _S(E, gq).calls("isclose"):
+        kw = dict(l.value[3])
+        rt = kw.get("rtol") or (l.value[2][2] if len(l.value[2]) > 2 else None)
+        abs_only = abs_only or (rt is not None and rt[0] == "const" and rt[1] == 0)
+    rep.check(abs_only, "TABLE", "WeightMap.get_qubit_weight_map|tolerance-is-absolute", "np.isclose(..., rtol=0, atol=10**-COORD_PRECISION)", "get_qubit_weight_map matches an atom to the traps with numpy's default relative tolerance (rtol=1e-5) on top of the absolute one: the matching radius grows with the coordinate, so two traps that are distinct at COORD_PRECISION (0.5 nm apart at x = 100 um) both match and their weights are added", E.where(gq))
+    rep.floor("TABLE", 5)
 
     # --------------------------------------------------------------- FLOW
     init = P.lookup_method(traps, "__init__")[0]
